@@ -1,0 +1,19 @@
+//go:build verif
+
+package sourcebundle
+
+import "context"
+
+// VerifSched is a verification hook (build tag "verif" only). When set, the
+// Builder calls it at its lock sites: "begin" on entry to an Add method,
+// "push" before the short critical section that queues the source, "drain"
+// before resolvePending takes the mutex, "unlock" before it releases it, and
+// "close" before Close takes the mutex. The hook may block, which lets a test
+// decide the order in which concurrent callers acquire the mutex.
+var VerifSched func(ctx context.Context, site string)
+
+func verifSched(ctx context.Context, site string) {
+	if VerifSched != nil {
+		VerifSched(ctx, site)
+	}
+}
